@@ -145,6 +145,56 @@ example : segWrites ["a", "b"] { t0 := 0, t1 := 2, x0 := 7, x1 := 7, y0 := 0, y1
 theorem line_injective {α} (lo hi : Int) (flip : Bool) (xs : List α) :
     ((place1 lo hi flip xs).map Prod.fst).Nodup := place1_keys_nodup lo hi flip xs
 
+/-! ## the image is the union of its lines -/
+
+/-- One sample per pixel on every imported line (`t1 − t0 = len`), lines that do not share a pixel:
+every pixel visited at travel step `j` of a line holds that line's `j`-th sample, and every pixel
+that no line visits keeps the NaN fill.  (All eight scan patterns are lists of such lines.) -/
+theorem image_of_lines (n : Nat) (segs : List Seg)
+    (hex : ∀ g ∈ segs, (g.y0 = g.y1 ∨ g.x0 = g.x1) ∧ g.t0 ≤ g.t1 ∧ g.t1 ≤ n ∧ g.t1 - g.t0 = g.len)
+    (hdisj : segs.Pairwise (fun g h => ∀ a b, a < g.len → b < h.len → g.cellAt a ≠ h.cellAt b)) :
+    ∃ w, allWrites n segs = some w ∧
+      (∀ g ∈ segs, ∀ j, j < g.len → lookupLast w (g.cellAt j) = some (g.t0 + j)) ∧
+      (∀ p, (∀ g ∈ segs, ∀ j, j < g.len → p ≠ g.cellAt j) → lookupLast w p = none) := by
+  induction segs with
+  | nil => exact ⟨[], rfl, by simp, by intro p _; rfl⟩
+  | cons g gs ih =>
+    rw [List.pairwise_cons] at hdisj
+    obtain ⟨ws, hws, ih1, ih2⟩ := ih (fun g' hg' => hex g' (by simp [hg'])) hdisj.2
+    obtain ⟨hax, h01, h1n, hlen⟩ := hex g (by simp)
+    have hxl : (pySlice (List.range n) g.t0 g.t1).length = g.len := by
+      rw [pySlice_range_length n _ _ h1n h01, hlen]
+    obtain ⟨wg, hwg, hmem⟩ := line_exact (pySlice (List.range n) g.t0 g.t1) g hax hxl
+    have hnd := segWrites_keys_nodup _ g wg hwg
+    refine ⟨wg ++ ws, ?_, ?_, ?_⟩
+    · simp [allWrites, hwg, hws]
+    · intro g' hg' j hj
+      rw [lookupLast_append]
+      rcases List.mem_cons.mp hg' with h | h
+      · subst h
+        have hnone : lookupLast ws (g'.cellAt j) = none :=
+          ih2 _ (fun h hh b hb => hdisj.1 h hh j b hj hb)
+        rw [hnone, Option.none_or]
+        exact lookupLast_of_mem wg hnd _ _ ((hmem _ _).mpr ⟨j, hj, rfl,
+          pySlice_range_getElem? n _ _ j h1n (by omega)⟩)
+      · rw [ih1 g' h j hj]; rfl
+    · intro p hp
+      rw [lookupLast_append, ih2 p (fun g' hg' j hj => hp g' (by simp [hg']) j hj)]
+      simp only [Option.none_or]
+      rw [lookupLast_none_iff]
+      intro e he
+      obtain ⟨j, hj, hc, _⟩ := (hmem e.1 e.2).mp he
+      rw [hc]
+      exact (hp g (by simp) j hj).symm
+
+/-- a serpentine raster of two lines of three pixels (left-to-right, then right-to-left one row
+down), samples 0–2 and 4–6 (sample 3 was taken in the gap): the image is the ground truth -/
+example : (allWrites 7 [{ t0 := 0, t1 := 3, x0 := 0, x1 := 3, y0 := 0, y1 := 0 },
+                        { t0 := 4, t1 := 7, x0 := 3, x1 := 0, y0 := 1, y1 := 1 }]).map
+      (fun w => [[lookupLast w (0, 0), lookupLast w (0, 1), lookupLast w (0, 2), lookupLast w (0, 3)],
+                 [lookupLast w (1, 0), lookupLast w (1, 1), lookupLast w (1, 2), lookupLast w (1, 3)]])
+    = some [[some 0, some 1, some 2, none], [some 6, some 5, some 4, none]] := by decide
+
 /-! ## event times → samples -/
 
 /-- With sorted sample times, the index range `[searchsorted t0, searchsorted t1)` computed on the
@@ -296,5 +346,22 @@ theorem origin_spec (xs : List Int) (hne : xs ≠ []) :
   ⟨minList_mem xs hne, fun x hx => minList_le xs x hx⟩
 
 example : minList [85677972, 96097972, 85677972, 96097972] = 85677972 := by decide
+
+/-! ## stretch (NOT proved): end to end
+
+The full statement
+
+    theorem sync_render (a : Acq) (sel) (h : truthHyp a sel = true) (hdisjoint : selected patterns do not overlap) :
+      ∀ rd, render a sel = some rd →
+        ∃ r, sync rd.rows sel rd.times rd.delay isnan false = .ok r ∧
+          r.origin = truthOrigin a sel ∧ ∀ row col, pixel r row col = truthImage a sel … row col
+
+composes the theorems above: `select_pattern` (the rendered log is a list of blocks), `origin_spec`
+and `pixel_of_aligned` (every rendered coordinate is the origin plus a multiple of the spot size),
+`sample_range` (mid-dwell samples of a line are exactly the samples in its On/Off interval, gap
+samples are in none), `image_of_lines` (the image is the union of the lines, each in travel order).
+The composition itself — threading the clock and the sample counter through `emitAll` — is not
+machine-checked; it is exercised by the correspondence check (`spec` = `truthImage`, `model` =
+`sync ∘ render`, both evaluated by the driver on every generated acquisition). -/
 
 end Pew.Sync
